@@ -8,6 +8,7 @@ The last token of every answer says whether the walk's result equals the naive s
 and its own scan of `get_pth`.  Core Lean only.
 -/
 import QmcModel.FastOpsHint
+import QmcModel.FastOpsCounters
 
 namespace Qmc.C11H
 open Qmc Qmc.Proto Qmc.FastOps
@@ -91,6 +92,17 @@ def stepRecycle (nvT slotsT route varsT pT hintsT : String) : String :=
       decide (a.lastRels = vars.map (fun v => (prevRel s v p).map (·.relv)))
     s!"{optNatS a.lastP} {showItems a} {a.unfilled} {if eqScan then "eq" else "ne"}"
 
+/-- `counts <nbonds> <events>`: the per-bond counter table after the history's counter events (`+b` an op of bond `b`
+was stored, `-b` removed), replayed with `bumpCount` (growth on demand) / `dropCount`; then `get_count(0 .. len + 2)` -/
+def stepCounts (nbT evT : String) : String :=
+  let evs : List (Bool × Nat) := if evT == "-" || evT == "" then [] else
+    (evT.splitOn ",").map fun t => (t.startsWith "+", parseNat (t.drop 1).toString)
+  match Qmc.Counters.replay (parseNat nbT) evs with
+  | none => "panic -"
+  | some cs =>
+    let gc := (List.range (cs.length + 2)).map fun b => Qmc.Counters.getCountT cs b
+    s!"bc:{showNats cs} gc:{showNats gc}"
+
 def showLogPs (l : List (Option Op)) : String :=
   joinOrS "+" (l.map fun o => match o with | some op => showOp op | none => "_")
 
@@ -141,7 +153,7 @@ def stepIterOps (nvT slotsT psT peT stopT : String) : String :=
 /-- the kinds this step answers -/
 def handles (kind : String) : Bool :=
   kind == "hintfill" || kind == "hintsub" || kind == "iterps" || kind == "iterops" || kind == "histpanic" ||
-  kind == "recycle" || kind == "histbad"
+  kind == "recycle" || kind == "histbad" || kind == "counts"
 
 def stepToks : List String → String
   | ["hintfill", nv, sl, vars, fills] => stepFill nv sl vars fills
@@ -153,6 +165,7 @@ def stepToks : List String → String
   | ["recycle", nv, sl, route, vars, p, hints] => stepRecycle nv sl route vars p hints
   -- the harness found the real container's getters / contents off a scan after a valid mutation
   | ["histbad", _] => "consistent"
+  | ["counts", nb, evs] => stepCounts nb evs
   | _ => "bad-line"
 
 /-- one input line → one answer line -/
